@@ -207,6 +207,7 @@ def run_family(ck, prefixes, *, model_prop, quick, thorough):
                 pre = os.path.join(tmp, f"sim_{name}_{j}")
                 n = num // parts + (1 if j < num % parts else 0)
                 return pre, tlc.run("MailStore", cfg, workers=1, timeout=P.get("tlc_timeout", 900),
+                                    env={"JAVA_TOOL_OPTIONS": "-Xmx3g"},       # several JVMs side by side
                                     simulate=f"file={pre},num={n}", depth=depth, seed=ck.seed + 1 + 1000 * j)
             with ThreadPoolExecutor(max_workers=parts) as ex:
                 outs = list(ex.map(sim, range(parts)))
@@ -216,8 +217,10 @@ def run_family(ck, prefixes, *, model_prop, quick, thorough):
                     ck.violation(prefixes[0] + "ModelViolatesPropertyLayer", act="model",
                                  where=name, detail=f"TLC simulation: {r.violated} violated",
                                  replay_obj={"tlc_out": r.out[-6000:]})
+                elif r.error == "timeout":
+                    ck.assumptions.append(f"TLC simulation {name}:{j} stopped at its time limit; the behaviours it had written are used")
                 elif r.rc != 0:
-                    raise RuntimeError(f"TLC simulate failed ({name}): {r.error}")
+                    raise RuntimeError(f"TLC simulate failed ({name}:{j}): rc={r.rc} {r.error} {r.out[-400:]}")
                 behaviours += mailreplay.load_behaviours(pre)
         jobs = [("replay", b, ck.seed * 100000 + i) for i, b in enumerate(behaviours)]
         for i in range(P["random"]):
